@@ -21,7 +21,7 @@ PROPS = {
         "trusted_base": ["sync.Pool buffer recycling is not modelled; its independence is exercised by 16 concurrent goroutines per 40th case"],
     },
     "C01": {
-        "suites": ["c01", "c01race", "scope-c07seq", "c08sched", "allocfault", "c09sub"],
+        "suites": ["c01", "c01race", "scope-c07seq", "scopeseq", "c08sched", "allocfault", "c09sub"],
         "assumptions": COMMON_ASSUME + [
             "a report pass reaches a counter only through counter.report / cachedReport / histogram.report (tie facts), so 'visit' = swap then optional reporter call",
             "lifting from one cell to 'per name and tags': a pass visits each registered counter once (C04/C07 cover registration and naming)",
@@ -30,7 +30,7 @@ PROPS = {
         "timeout": {"quick": 300, "thorough": 3000},
     },
     "C02": {
-        "suites": ["c02", "c02race", "c02stale", "scope-c05", "allocfault"],
+        "suites": ["c02", "c02race", "c02stale", "gaugeseq", "scope-c05", "allocfault"],
         "assumptions": COMMON_ASSUME + [
             "one updating goroutine per gauge (the property's quantifier); reading the value and calling the reporter are separate steps of the model (the recording reporter's entry is a schedule point of the correspondence check); sync.Mutex gives mutual exclusion between the visits of one gauge (repair D13)",
         ],
@@ -96,7 +96,7 @@ PROPS = {
         "trusted_base": ["vendored thrift compact/binary protocol writers and the generated ttypes.go are modelled by hand (Tally/Model/Thrift.lean) and tied by byte-for-byte differential only"],
     },
     "C07": {
-        "suites": ["c07lock", "c07conc", "c07alias", "scope-c07seq", "c09sub"],
+        "suites": ["c07lock", "c07conc", "c07alias", "scopeseq", "scope-c07seq", "c09sub"],
         "assumptions": COMMON_ASSUME + [
             "Model.Registry models one shard and one counter per scope (counters of one scope do not interact); keys are raw spellings with an arbitrary idempotent sanitizer on keys as a parameter, a scope is registered under its sanitized key and under the raw keys that asked for it, exactly as registry.Subscope does; raw and sanitized key of one request live in the same shard in the code (the shard is chosen by the raw key), several shards are covered sequentially by Model.Scope",
             "lock-protected regions without a schedule point are single atomic steps; Go's RWMutex gives mutual exclusion and no lock is taken recursively",
@@ -106,7 +106,7 @@ PROPS = {
         "timeout": {"quick": 400, "thorough": 3600},
     },
     "C08": {
-        "suites": ["c08conc", "c08sched", "c08lock", "c08slow", "allocfault"],
+        "suites": ["c08conc", "c08sched", "c08lock", "c08slow", "scopeseq", "allocfault"],
         "assumptions": COMMON_ASSUME + [
             "'the reporting goroutine has ended' is observed by a goroutine dump after Close returned",
             "a second Close call that overlaps the first returns nil before the first has finished (limitation D5b, theorem concurrent_close_returns_early); the barrier is claimed for the winning caller",
